@@ -11,8 +11,8 @@ CHECKS = {
         "bin": "c03_coalesce",
         "level": "exploration",
         "rule": "scenario coalesce_history: one run = one seeded producer/consumer history over a BatchCoalescer (pushes with/without filter or indices, finishes, limit changes, drains at tape-chosen "
-                "moments) checked step by step against a row-level reference model; scenario pipeline: one run = one history of 3-12 selection kernels (slice, filter, take, concat, interleave, zip, nullif, "
-                "shift) over a pool of arrays of one generated type - every result is validated, compared with the row-by-row definition and put back into the pool, so the physical layouts one kernel "
+                "moments) checked step by step against a row-level reference model; scenario pipeline: one run = one history of 3-12 selection kernels (slice, filter, take, concat, interleave, zip - array and scalar operands -, nullif, "
+                "shift) over a pool of arrays of one generated type (list views included) - every result is validated, compared with the row-by-row definition and put back into the pool, so the physical layouts one kernel "
                 "produces (sliced, offset children, merged dictionaries) are the next kernel's input; a run is non-trivial when it executed at least one operation; distinct = distinct hash of (op sequence, "
                 "per-op row counts, filter class, target, limit)",
         "required_probes": ["probe.coalesce.sparse_copy", "probe.coalesce.materialised_filter", "probe.coalesce.bypass_history", "probe.pipeline.interleave", "probe.pipeline.zip", "probe.pipeline.nullif", "probe.pipeline.shift"],
@@ -23,7 +23,7 @@ CHECKS = {
         },
         "level_text": "seeded exploration of producer/consumer histories of the stateful BatchCoalescer and of operator-pipeline histories of the selection kernels against an executable row-level reference "
                       "model, checked after every step (observers, validity, rows) and over the whole history (conservation, order, batch sizes); sampling, not proof",
-        "design_ref": "DESIGN.md section 4 (C03), section 11.7",
+        "design_ref": "DESIGN.md section 4 (C03), sections 11.7 and 12",
         "level_note": "the coalescer sentence of C03 is a history property proper; the per-kernel sentence is a pure-function claim that this technique does not decide in general - the pipeline scenario checks the "
                       "kernels only along seeded operation histories (inputs are whatever earlier kernels produced), without any claim of covering their type x selectivity space; "
                       "trusted: in-tree simulator, value extraction through arrow's safe accessors, ArrayData::validate_full",
@@ -80,11 +80,11 @@ CHECKS = {
             "real": ["parquet::arrow::ArrowWriter, ArrowRowGroupWriterFactory, ArrowColumnWriter, compute_leaves, ArrowColumnChunk::append_to_row_group, SerializedFileWriter", "all value / level encoders and decoders, codecs",
                      "ParquetRecordBatchReaderBuilder / ParquetRecordBatchReader"],
             "stub": ["the caller's write history", "the column-writer workers' scheduler (cooperative tasks instead of threads)"],
-            "not_run": ["real threads for the column writers", "content-defined chunking", "run-end encoded and list-view columns", "AsyncArrowWriter (I/O faults on it are C18's matter)"],
+            "not_run": ["real threads for the column writers", "content-defined chunking", "run-end encoded columns", "AsyncArrowWriter (I/O faults on it are C18's matter)"],
         },
         "level_text": "seeded exploration of write histories, writer configurations and column-writer schedules against the logical rows the table was generated from (the oracle never uses arrow's ==); sampling, not proof",
-        "design_ref": "DESIGN.md section 4 (C05), section 11",
-        "level_note": "zero-width fixed-size types are exercised in a scenario of their own (the writer's panic on them is a known finding); run-end encoded / list-view columns and CDC are not exercised; a quarter of the serial runs route completed pages through a spill store with opaque non-dense keys; "
+        "design_ref": "DESIGN.md section 4 (C05), sections 11 and 12",
+        "level_note": "zero-width fixed-size types are exercised in a scenario of their own (the writer's panic on them is a known finding); run-end encoded columns and CDC are not exercised (list views are, nested too); a quarter of the serial runs route completed pages through a spill store with opaque non-dense keys; "
                       "the column writers run as cooperative tasks on one thread (their interleaving is the scheduler's, not the OS's); returned batches must also pass ArrayData::validate_full (trusted)",
         "technique": "deterministic simulation: seeded write histories and a seeded scheduler over independent column-writer tasks, reference = the logical rows the data was generated from; tape replay + shrinking",
         "assumptions": TRUSTED + [
@@ -113,7 +113,7 @@ CHECKS = {
         },
         "level_text": "seeded exploration of storage faults (single and few-fault corruptions, structure-biased) on files from the real writers of ten reader front ends; oracle: Err, or Ok with batches that pass full "
                       "validation; no panic, no process abort, no hang (step budgets + supervisor stall watchdog), no single allocation above 256 MiB; sampling, not proof",
-        "design_ref": "DESIGN.md section 4 (C08), section 11",
+        "design_ref": "DESIGN.md section 4 (C08), sections 11 and 12",
         "level_note": "what a damaged file should decode to is unconstrained - values are never compared; the validity oracle is RecordBatch / ArrayData::validate_full plus a full read through safe accessors (trusted); "
                       "a run stops at its first violation, so with the known findings listed in known_findings.txt some corruptions behind a known panic site are not reached in that run; hangs are attributed by the "
                       "supervisor's stall watchdog (120 s without progress in a worker whose runs take milliseconds, confirmed by re-execution in isolation)",
@@ -134,17 +134,17 @@ CHECKS = {
                 "for EVERY split point, a tail prefetch of EVERY length, uniform consecutive buffers of 9 sizes, tape-chosen overlapping / duplicated buffers; for the valid file, a truncated file and a file with one "
                 "flipped footer bit. Flight decoder: the encoder's message sequence and one invalid variant (schema repeated, schema missing, body truncated, message dropped) under EVERY Pending/Ready pattern "
                 "(2^(n+1), capped at 4096 sampled patterns); executions_of_real_code = decoder executions; distinct = distinct (decoder, input length, rows, multi-split cut sets)",
-        "required_probes": ["probe.reference_is_error"],
+        "required_probes": ["probe.reference_is_error", "probe.mangle.short_row", "probe.mangle.escape"],
         "components": {
             "real": ["arrow_csv::reader::Decoder (+ RecordDecoder), arrow_json::reader::Decoder (+ TapeDecoder), arrow_ipc::reader::StreamDecoder, driven by the loops documented on each type",
                      "arrow_avro::reader::Decoder with a SchemaStore over single-object-encoded streams from the real writer (chunk dependence there is a listed known finding)", "parquet::file::metadata::ParquetMetaDataPushDecoder + PushBuffers (reference: ParquetMetaDataReader)", "arrow_flight::decode::{FlightRecordBatchStream, FlightDataDecoder} (messages from the real FlightDataEncoder)",
                      "arrow_csv::Writer, arrow_json writers, arrow_ipc::writer::StreamWriter, parquet ArrowWriter (produce the inputs); arrow_csv::Reader, arrow_json::Reader, arrow_ipc StreamReader (pull readers compared on valid input)"],
             "stub": ["the producer that cuts the byte stream into chunks / chooses which byte ranges are buffered up front (seeded / enumerated schedule)", "the Flight message stream (Pending pattern enumerated) and the manual executor"],
-            "not_run": ["arrow_avro OCF streaming through the Decoder (only single-object framing is driven)", "bit-flipped inputs for CSV / JSON / IPC (only truncation is used as invalid input there)"],
+            "not_run": ["arrow_avro OCF streaming through the Decoder (only single-object framing is driven)", "bit-flipped inputs for IPC (only truncation is used as invalid input there; CSV / JSON also get text-level edits: short rows, damaged escapes, stray structural characters)"],
         },
         "level_text": "seeded exploration of delivery schedules (every single split point enumerated per input, byte-at-a-time, random multi-splits with empty chunks; every two-buffer split and every tail prefetch of a Parquet "
                       "file; every Pending/Ready pattern of a Flight message sequence) of five push decoders against their own one-delivery result and the pull reader; sampling of inputs, not proof",
-        "design_ref": "DESIGN.md section 4 (C14), section 11",
+        "design_ref": "DESIGN.md section 4 (C14), sections 11 and 12",
         "level_note": "covers the CSV, JSON, IPC stream, Avro single-object, Parquet metadata and Flight decoders (the Avro decoder's chunk dependence is a known finding, so every Avro run ends at it); flush is issued where the documented loop issues it (not at every "
                       "permitted point); a damaged input on which the decoder panics even in one delivery is counted and left to C08; trusted: in-tree simulator, row extraction, validate_full",
         "technique": "deterministic simulation: the input transport is a seam owned by the simulator, which enumerates / samples the delivery schedule; reference = single delivery; tape replay + shrinking",
@@ -204,9 +204,9 @@ CHECKS = {
                 "free, double free and leaks, the scenario asserts visible bytes, import equality, release counts and pool.used() == 0 at the final quiescent point; evaluations = stage-1 histories; "
                 "distinct = distinct operation sequences",
         "required_probes": ["probe.own.custom_region", "probe.own.into_mutable_ok", "probe.own.into_mutable_declined", "probe.own.into_vec_ok", "probe.own.unary_mut_ok", "probe.own.unary_mut_declined",
-                            "probe.own.bitop_in_place", "probe.own.bitop_copied", "probe.own.claimed", "probe.own.exported", "probe.own.imported", "probe.own.imported_boolean_array", "probe.own.stream_roundtrip"],
+                            "probe.own.bitop_in_place", "probe.own.bitop_copied", "probe.own.claimed", "probe.own.exported", "probe.own.imported", "probe.own.imported_boolean_array", "probe.own.stream_roundtrip", "probe.own.reclaimed_in_other_pool", "probe.own.exported_dictionary", "probe.own.imported_dictionary"],
         "components": {
-            "real": ["arrow_buffer::{Buffer, MutableBuffer, Bytes, BooleanBuffer, NullBuffer, ScalarBuffer, TrackingMemoryPool} (feature pool)", "arrow_array::{Int32Array, BooleanArray}::{unary_mut, into_builder, to_data}",
+            "real": ["arrow_buffer::{Buffer, MutableBuffer, Bytes, BooleanBuffer, NullBuffer, ScalarBuffer, TrackingMemoryPool} (feature pool)", "arrow_array::{Int32Array, BooleanArray, DictionaryArray<Int8>}::{unary_mut, into_builder, to_data}", "two TrackingMemoryPools (a claim in the other pool moves a region's reservation)",
                      "arrow_array::ffi::{to_ffi, from_ffi}, arrow_data::ffi::FFI_ArrowArray, arrow_schema::ffi::FFI_ArrowSchema (release callbacks are Rust, so Miri executes them)",
                      "arrow_array::ffi_stream::{FFI_ArrowArrayStream, ArrowArrayStreamReader} (stage 1: arrays moved into a stream, exported, imported, drained)"],
             "stub": ["the memory owner (custom Allocation with release counter, 0xDD scribble and quarantine)", "the foreign consumer of exported structs (another handle / another thread)", "stage 2: Miri's interpreter-owned scheduler"],
@@ -214,7 +214,7 @@ CHECKS = {
         },
         "level_text": "seeded exploration of ownership histories against an executable region model checked after every step (single caller thread, millions of histories), plus seeded instruction-level "
                       "interleavings of several caller threads under the Miri interpreter with its race / use-after-free / double-free / leak detection; sampling, not proof",
-        "design_ref": "DESIGN.md section 4 (C16), section 11",
+        "design_ref": "DESIGN.md section 4 (C16), sections 11 and 12",
         "level_note": "in-place success is only accepted when the model says the handle was unique, zero-offset and natively allocated (declining is always accepted); pool accounting of a region that went through an in-place "
                       "kernel is not predicted (only a lower bound is checked); binary in-place kernels are not exercised; the C Stream Interface only in stage 1; Miri runs cover small scenarios (2-3 threads, 8-19 ops each); "
                       "trusted: in-tree simulator, the region model, Miri",
@@ -235,7 +235,7 @@ CHECKS = {
                 "one-shot and persistent and once with a single Interrupted and once with a single short read, EVERY PageStore put / take call (parquet_spill), EVERY prefix length 0..len of the produced file (<= 8 KiB; larger: write-call edges +-2 and a stride) is read back, the file left by each "
                 "persistently failing writer is read back, and one tape-driven benign part (short reads/writes, bounded Interrupted) is run; evaluations = workloads, "
                 "executions_of_real_code = writer or reader executions; a run is non-trivial when its reference succeeded; distinct = distinct (format, sink calls, file length)",
-        "required_probes": ["probe.benign_write_ok", "probe.benign_read_ok"],
+        "required_probes": ["probe.benign_write_ok", "probe.benign_read_ok", "probe.finish_attempted_after_failed_write", "probe.finish_ok_after_failed_write"],
         "components": {
             "real": ["arrow_ipc::writer::{FileWriter, StreamWriter} (plain and BufWriter-wrapped), arrow_ipc::reader::{FileReader, StreamReader} (plain and buffered)",
                      "parquet::arrow::ArrowWriter + SerializedFileWriter + TrackedWrite, ParquetRecordBatchReaderBuilder / ParquetMetaDataReader / SerializedFileReader over a ChunkReader",
@@ -246,9 +246,9 @@ CHECKS = {
             "not_run": ["object_store adapters, SpawnedReader, Avro SOE decoder (no Read-based reader)"],
         },
         "level_text": "per generated workload, exhaustive enumeration of the fault position (every sink call, every source call, every truncation length of small files) with seeded "
-                      "sampling of workloads, options and benign-fault schedules; oracle: error reported, no panic/hang, accepted bytes are a prefix of the fault-free output, rows are a prefix of the fault-free rows",
-        "design_ref": "DESIGN.md section 4 (C18)",
-        "level_note": "sync Read/Write/Seek/BufRead/ChunkReader seams, the tokio async faces of the Parquet writer / stream (scenario parquet_async) and the PageStore seam (parquet_spill); workloads are sampled, fault positions are enumerated; "
+                      "sampling of workloads, options and benign-fault schedules; oracle: error reported, no panic/hang, accepted bytes are a prefix of the fault-free output, rows are a prefix of the fault-free rows; when the caller finishes a Parquet / IPC writer after a failed write and that reports success, the sink must read back as at least the acknowledged batches",
+        "design_ref": "DESIGN.md section 4 (C18), sections 10-12",
+        "level_note": "sync Read/Write/Seek/BufRead/ChunkReader seams, the tokio async faces of the Parquet writer / stream (scenario parquet_async) and the PageStore seam (parquet_spill); workloads are sampled (small ones, and *_big ones whose writes exceed the writers' internal 8 KiB buffers), fault positions are enumerated; "
                       "CSV truncation is not checked (a cut line is a valid shorter line); trusted: in-tree simulator, row extraction, ArrayData::validate_full; "
                       "runs whose fault-free reference fails are skipped and counted (no fault was injected, so they say nothing about C18)",
         "technique": "deterministic simulation with fault injection: instrumented sink/source, fault at call k for all k, truncation at every length, tape-driven short transfers and EINTR, tape replay + shrinking",
